@@ -123,49 +123,49 @@ input_merge_opt!(c14_in_merge_sighash_type, sighash_type, PsbtSighashType::from_
 //@ harness: c14_in_merge_required_time_locktime class=F tier=quick
 //@ clause: Input::merge keeps required_time_locktime present in either operand (identical or one-sided), order-insensitive, no other field disturbed
 input_merge_opt!(c14_in_merge_required_time_locktime, required_time_locktime, any_time());
-//@ harness: c14_in_merge_required_height_locktime class=F tier=thorough
+//@ harness: c14_in_merge_required_height_locktime class=F tier=quick
 //@ clause: Input::merge keeps required_height_locktime present in either operand (identical or one-sided), order-insensitive, no other field disturbed
 input_merge_opt!(c14_in_merge_required_height_locktime, required_height_locktime, any_height());
 //@ harness: c14_in_merge_tap_key_sig class=F tier=quick
 //@ clause: Input::merge keeps the taproot key-spend signature present in either operand (identical or one-sided), order-insensitive, no other field disturbed
 input_merge_opt!(c14_in_merge_tap_key_sig, tap_key_sig, any_schnorr_sig());
-//@ harness: c14_in_merge_tap_merkle_root class=F tier=thorough
+//@ harness: c14_in_merge_tap_merkle_root class=F tier=quick
 //@ clause: Input::merge keeps tap_merkle_root present in either operand (identical or one-sided), order-insensitive, no other field disturbed
 input_merge_opt!(c14_in_merge_tap_merkle_root, tap_merkle_root, TapNodeHash::from_byte_array(kani::any()));
 //@ harness: c14_in_merge_issuance_value_amount class=F tier=quick
 //@ clause: Input::merge keeps issuance_value_amount present in either operand (identical or one-sided), order-insensitive, no other field disturbed
 input_merge_opt!(c14_in_merge_issuance_value_amount, issuance_value_amount, kani::any::<u64>());
-//@ harness: c14_in_merge_pegin_genesis_hash class=F tier=thorough
+//@ harness: c14_in_merge_pegin_genesis_hash class=F tier=quick
 //@ clause: Input::merge keeps pegin_genesis_hash present in either operand (identical or one-sided), order-insensitive, no other field disturbed
 input_merge_opt!(c14_in_merge_pegin_genesis_hash, pegin_genesis_hash, BlockHash::from_byte_array(kani::any()));
-//@ harness: c14_in_merge_pegin_value class=F tier=thorough
+//@ harness: c14_in_merge_pegin_value class=F tier=quick
 //@ clause: Input::merge keeps pegin_value present in either operand (identical or one-sided), order-insensitive, no other field disturbed
 input_merge_opt!(c14_in_merge_pegin_value, pegin_value, kani::any::<u64>());
-//@ harness: c14_in_merge_issuance_inflation_keys class=F tier=thorough
+//@ harness: c14_in_merge_issuance_inflation_keys class=F tier=quick
 //@ clause: Input::merge keeps issuance_inflation_keys present in either operand (identical or one-sided), order-insensitive, no other field disturbed
 input_merge_opt!(c14_in_merge_issuance_inflation_keys, issuance_inflation_keys, kani::any::<u64>());
 //@ harness: c14_in_merge_issuance_asset_entropy class=F tier=quick
 //@ clause: Input::merge keeps issuance_asset_entropy present in either operand (identical or one-sided), order-insensitive, no other field disturbed
 input_merge_opt!(c14_in_merge_issuance_asset_entropy, issuance_asset_entropy, kani::any::<[u8; 32]>());
-//@ harness: c14_in_merge_amount class=F tier=thorough
+//@ harness: c14_in_merge_amount class=F tier=quick
 //@ clause: Input::merge keeps the explicit amount present in either operand (identical or one-sided), order-insensitive, no other field disturbed
 input_merge_opt!(c14_in_merge_amount, amount, kani::any::<u64>());
 //@ harness: c14_in_merge_asset class=F tier=quick
 //@ clause: Input::merge keeps the explicit asset present in either operand (identical or one-sided), order-insensitive, no other field disturbed
 input_merge_opt!(c14_in_merge_asset, asset, AssetId::from_byte_array(kani::any()));
-//@ harness: c14_in_merge_blinded_issuance class=F tier=thorough
+//@ harness: c14_in_merge_blinded_issuance class=F tier=quick
 //@ clause: Input::merge keeps blinded_issuance present in either operand (identical or one-sided), order-insensitive, no other field disturbed
 input_merge_opt!(c14_in_merge_blinded_issuance, blinded_issuance, kani::any::<u8>());
-//@ harness: c14_in_merge_tap_internal_key class=F tier=thorough
+//@ harness: c14_in_merge_tap_internal_key class=F tier=quick
 //@ clause: Input::merge keeps tap_internal_key present in either operand (identical or one-sided), order-insensitive (x-only key comparison through the assumed libsecp model)
 input_merge_opt!(c14_in_merge_tap_internal_key, tap_internal_key, any_xonly(), kani::stub(zffi::secp256k1_xonly_pubkey_cmp, model_xonly_pubkey_cmp));
-//@ harness: c14_in_merge_issuance_value_comm class=F tier=thorough
+//@ harness: c14_in_merge_issuance_value_comm class=F tier=quick
 //@ clause: Input::merge keeps issuance_value_comm present in either operand, order-insensitive (commitment built through the assumed parse model)
 input_merge_opt!(c14_in_merge_issuance_value_comm, issuance_value_comm, any_pedersen(), kani::stub(zffi::secp256k1_pedersen_commitment_parse, model_pedersen_commitment_parse));
-//@ harness: c14_in_merge_issuance_inflation_keys_comm class=F tier=thorough
+//@ harness: c14_in_merge_issuance_inflation_keys_comm class=F tier=quick
 //@ clause: Input::merge keeps issuance_inflation_keys_comm present in either operand, order-insensitive
 input_merge_opt!(c14_in_merge_issuance_inflation_keys_comm, issuance_inflation_keys_comm, any_pedersen(), kani::stub(zffi::secp256k1_pedersen_commitment_parse, model_pedersen_commitment_parse));
-//@ harness: c14_in_merge_issuance_blinding_nonce class=F tier=thorough
+//@ harness: c14_in_merge_issuance_blinding_nonce class=F tier=quick
 //@ clause: Input::merge keeps issuance_blinding_nonce present in either operand, order-insensitive (tweak range check through the exact seckey_verify model)
 input_merge_opt!(c14_in_merge_issuance_blinding_nonce, issuance_blinding_nonce, any_tweak(), kani::stub(zffi::secp256k1_ec_seckey_verify, model_ec_seckey_verify));
 
